@@ -121,4 +121,58 @@ Pick(status) ==
 \* the status it reads: an uncarriable <<variant, code>> arrives as another variant
 \* (net/http sends an informational code as an interim response; the final one is then 200)
 ImplResp(v, k) == LET w == IF HasCode(v) /\ (k = 0 \/ (k >= 100 /\ k <= 199)) THEN 200 ELSE Wire(v, k) IN <<Pick(w), w>>
+
+(**************** responses: any declared set (exact / class / default) *****************)
+\* d = [exact |-> set of codes, pats |-> set of classes 1..5, dflt |-> BOOLEAN]; a variant is
+\* [kind |-> "code", n |-> code] | [kind |-> "pat", n |-> class] | [kind |-> "default", n |-> 0].
+\* A coded variant (pat / default) belongs to the codes no more specific declaration owns.
+ClassOf(k) == k \div 100
+CarriableD(d, v, k) ==
+  CASE v.kind = "code" -> v.n \in d.exact
+    [] v.kind = "pat" -> v.n \in d.pats /\ ClassOf(k) = v.n /\ k \notin d.exact /\ ~NoBodyCode(k)
+    [] v.kind = "default" -> d.dflt /\ k >= 100 /\ k <= 599 /\ k \notin d.exact /\ ClassOf(k) \notin d.pats /\ ~NoBodyCode(k)
+    [] OTHER -> FALSE
+RespOKD(d, v, k, payload, outcome, v2, k2, payload2) ==
+  IF CarriableD(d, v, k)
+  THEN outcome = "ok" /\ v2 = v /\ (v.kind # "code" => k2 = k) /\ payload2 = payload
+  ELSE outcome \in {"client_err", "server_err"}
+\* implementation: written with the variant's own code, picked exact -> class -> default
+PickD(d, status) ==
+  IF status \in d.exact THEN [kind |-> "code", n |-> status]
+  ELSE IF ClassOf(status) \in d.pats THEN [kind |-> "pat", n |-> ClassOf(status)]
+  ELSE IF d.dflt THEN [kind |-> "default", n |-> 0] ELSE [kind |-> "none", n |-> 0]
+ImplRespD(d, v, k) ==
+  LET w == IF v.kind = "code" THEN v.n ELSE IF k = 0 \/ (k >= 100 /\ k <= 199) THEN 200 ELSE k
+  IN <<PickD(d, w), w>>
+
+(******************************* media types ********************************)
+\* A body declares a set D of media entries <<type, subtype>>; an entry may be a mask
+\* ("image/*", "*/*").  A value of the generated request / response type names the entry it
+\* is a variant of and the concrete media type it travels as (a variant that has no type
+\* field of its own travels as its entry).  Only the media type crosses the wire, so the
+\* receiving side can name the variant again only when the entry is the most specific
+\* declared one that matches the type.
+MatchMT(e, ct) == (e[1] = "*" \/ e[1] = ct[1]) /\ (e[2] = "*" \/ e[2] = ct[2])
+StarsMT(e) == (IF e[1] = "*" THEN 1 ELSE 0) + (IF e[2] = "*" THEN 1 ELSE 0)
+\* (a mask handed over as the type is carried like any other text: it matches itself)
+WellFormedMT(ct) == ct[1] # "" /\ ct[2] # ""
+MediaCarriable(D, e, ct) ==
+  /\ e \in D /\ WellFormedMT(ct) /\ MatchMT(e, ct)
+  /\ (StarsMT(e) = 0 => ct = e)
+  /\ \A f \in D \ {e} : MatchMT(f, ct) => StarsMT(f) > StarsMT(e)
+MediaOK(D, e, ct, payload, outcome, e2, ct2, payload2) ==
+  IF MediaCarriable(D, e, ct)
+  THEN outcome = "ok" /\ e2 = e /\ ct2 = ct /\ payload2 = payload
+  ELSE outcome \in {"client_err", "refused_4xx", "server_err"}
+\* implementation: the sender writes the variant's type field when it has one; the receiver
+\* takes the first declared entry that matches, exact entries before masks
+ImplPickMT(D, ct) ==
+  IF \E f \in D : StarsMT(f) = 0 /\ f = ct THEN ct
+  ELSE IF \E f \in D : MatchMT(f, ct) THEN CHOOSE f \in D : MatchMT(f, ct) /\ \A g \in D : MatchMT(g, ct) => StarsMT(g) >= StarsMT(f)
+  ELSE <<"", "">>
+\* Dev_ContentTypeOverridesVariant: every variant of a response that declares a mask gets a
+\* ContentType field, also the variants of exact entries; whatever it holds replaces the
+\* entry's own type on the wire, and the caller is handed the variant that type selects
+ImplMediaOverride(D, e, ct, outcome, e2, ct2) ==
+  StarsMT(e) = 0 /\ ct # e /\ WellFormedMT(ct) /\ outcome = "ok" /\ e2 = ImplPickMT(D, ct) /\ e2 # <<"", "">> /\ ct2 = ct
 =============================================================================
